@@ -33,6 +33,9 @@ type Cfg struct {
 	// Writers are the SafeWriter names a value site may end with.
 	Values  []Opaque
 	Writers []string
+	// StateProbes wraps constructs in sp("n","b") / sp("n","a") calls that snapshot the interpreter state
+	// (verif hook) before and after; the states must be equal.
+	StateProbes bool
 }
 
 type blockInfo struct {
@@ -189,6 +192,32 @@ func (g *gen) observe() []Node {
 }
 
 func (g *gen) stmt(depth int) []Node {
+	ns := g.stmt0(depth)
+	if !g.cfg.StateProbes || len(ns) == 0 || g.r.Intn(2) == 0 {
+		return ns
+	}
+	// only constructs that must leave scopes, context, content and writer as they found them
+	wrap := false
+	for _, n := range ns {
+		switch n.(type) {
+		case *If, *Range, *Yield, *Try, *Include, *YieldContent:
+			wrap = true
+		case *Let:
+			return ns // a declaration at this level legitimately opens the list's scope
+		}
+	}
+	if !wrap {
+		return ns
+	}
+	g.n++
+	id := fmt.Sprintf("sp%d", g.n)
+	g.feat["state-probe"] = true
+	out := []Node{&Print{E: Opaque{Src: fmt.Sprintf("sp(%q, \"b\")", id), Val: Str("")}}}
+	out = append(out, ns...)
+	return append(out, &Print{E: Opaque{Src: fmt.Sprintf("sp(%q, \"a\")", id), Val: Str("")}})
+}
+
+func (g *gen) stmt0(depth int) []Node {
 	c := g.cfg
 	for tries := 0; tries < 20; tries++ {
 		switch k := g.r.Intn(24); {
